@@ -503,8 +503,10 @@ class Concatenator(Group):  # pylint: disable=too-many-public-methods
             self.update_array_attribute(entity, entity.name, remove=True)
             # Remove the data from the group
 
-            if entity.property_group is not None:
-                entity.property_group.remove_properties([entity])
+            # (every group that lists it: a data set may be a member of several)
+            for prop_group in list(parent.property_groups or []):
+                if prop_group.properties and entity.uid in prop_group.properties:
+                    prop_group.remove_properties([entity])
 
             # Remove from the concatenated Attributes
             parent_attr = self.get_concatenated_attributes(parent.uid)
